@@ -37,13 +37,14 @@ Y = np.array([0.0, 1.0, NAN, 1.0])
 W = np.array([1.0, 2.0, 0.5, 1.0])
 IDX_MENU = [(0,), (1,), (2,), (3,), (0, 1), (2, 3), (1, 2), (0, 3)]
 ALL = np.arange(4)
+PREFIT = [0, 3]  # training set of the classifier in the "prefit" configurations
 
 
 def bounds(tier):
     q = tier == "quick"
     return {"wrapped": ["ParzenWindowClassifier", "SklearnClassifier(GaussianNB)"], "flags": "all 8 combinations of use_speed_up x enforce_unique_samples x "
             "ignore_partial_fit (speed-up only for PWC)", "weights": [False, True], "index_sets": [list(i) for i in (IDX_MENU if not q else IDX_MENU[:6])],
-            "label_overrides": ["None", "all 1", "all 0"] if not q else ["None", "all 1"], "sample_weight_overrides": "None; constant 3.0 (configurations with weights)", "depth": 3, "depth_note": "quick: the third level uses a reduced menu (index sets [0],[1,2], stored labels, all flag combinations)",
+            "label_overrides": ["None", "all 1", "all 0"] if not q else ["None", "all 1"], "sample_weight_overrides": "None; constant 3.0 (configurations with weights)", "depth": 3, "depth_note": "quick: the third level uses a reduced menu (index sets [0],[1,2], stored labels, all flag combinations); prefit configurations (classifier fitted on samples [0,3] and stored as base model in __init__) use index sets [1],[2],[3],[0,1] in the quick tier",
             "max_states": 6000 if q else 40000}
 
 
@@ -55,6 +56,11 @@ def configs():
                 for ign in ((True,) if clf == "pwc" else (False, True)):
                     for wts in (False, True):
                         out.append({"clf": clf, "speed": speed, "uniq": uniq, "ign": ign, "wts": wts})
+    # wrapper built around an already fitted classifier that is also stored as base model (`set_base_clf=True` in __init__); only with a
+    # native partial_fit (otherwise the wrapper documents that it cannot continue from a model whose training data it does not know)
+    for uniq in (False, True):
+        for wts in (False, True):
+            out.append({"clf": "gnb", "speed": False, "uniq": uniq, "ign": False, "wts": wts, "prefit": True})
     return out
 
 
@@ -77,17 +83,24 @@ def make_clf(name):
 def make_wrapper(cfg):
     from skactiveml.pool.utils import IndexClassifierWrapper
 
-    w = IndexClassifierWrapper(make_clf(cfg["clf"]), X.copy(), Y.copy(), sample_weight=W.copy() if cfg["wts"] else None,
+    clf = make_clf(cfg["clf"])
+    if cfg.get("prefit"):
+        with warnings.catch_warnings():
+            warnings.simplefilter("ignore")
+            clf.fit(X[PREFIT], Y[PREFIT], sample_weight=W[PREFIT]) if cfg["wts"] else clf.fit(X[PREFIT], Y[PREFIT])
+    w = IndexClassifierWrapper(clf, X.copy(), Y.copy(), sample_weight=W.copy() if cfg["wts"] else None, set_base_clf=bool(cfg.get("prefit")),
                                ignore_partial_fit=cfg["ign"], enforce_unique_samples=cfg["uniq"], use_speed_up=cfg["speed"])
     if cfg["speed"]:
         w.precompute(ALL, ALL)
     return w
 
 
-def ops_menu(tier, level=0, wts=False):
+def ops_menu(tier, level=0, wts=False, prefit=False):
     b = bounds(tier)
     ys = [None, 1.0] if tier == "quick" else [None, 1.0, 0.0]
     sets = b["index_sets"]
+    if prefit and tier == "quick":
+        sets = sets[1:5]  # every operation is enabled from the start in the prefit configurations: smaller menu in the quick tier
     if tier == "quick" and level >= 2:
         # third level of the quick tier: reduced menu (every flag combination, three index sets, stored labels)
         sets, ys = [[0], [1, 2]], [None]
@@ -129,6 +142,9 @@ class Ref:
         self.native = cfg["clf"] == "gnb" and not cfg["ign"]
         self.cur = None  # list of (i, y, w) or list of chunks
         self.base = None
+        if cfg.get("prefit"):
+            self.cur = [self._triples(PREFIT, None)]
+            self.base = [list(c) for c in self.cur]
 
     def _triples(self, idx, yv, wv=None):
         out = []
@@ -208,11 +224,11 @@ def explore(acc, cfg, tier):
     frontier = [()]
     seen = set()
     name = "IndexClassifierWrapper[%s%s%s%s%s]" % (cfg["clf"], ",speed_up" if cfg["speed"] else "", ",unique" if cfg["uniq"] else "",
-                                                   ",ignore_partial_fit" if cfg["ign"] and cfg["clf"] == "gnb" else "", ",weights" if cfg["wts"] else "")
+                                                   ",ignore_partial_fit" if cfg["ign"] and cfg["clf"] == "gnb" else "", (",weights" if cfg["wts"] else "") + (",prefit" if cfg.get("prefit") else ""))
     capped = False
     for depth in range(b["depth"]):
         nxt = []
-        ops = ops_menu(tier, depth, cfg["wts"])
+        ops = ops_menu(tier, depth, cfg["wts"], bool(cfg.get("prefit")))
         for hist in frontier:
             for op in ops:
                 h2 = hist + (op,)
@@ -318,6 +334,8 @@ def compare_speedup(acc, cfg, tier):
 def run_shard(spec):
     acc = Acc()
     cfg = {k: spec[k] for k in ("clf", "speed", "uniq", "ign", "wts")}
+    if spec.get("prefit"):
+        cfg["prefit"] = True
     explore(acc, cfg, spec["tier"])
     compare_speedup(acc, cfg, spec["tier"])
     return acc
@@ -325,13 +343,14 @@ def run_shard(spec):
 
 def _name(cfg):
     return "IndexClassifierWrapper[%s%s%s%s%s]" % (cfg["clf"], ",speed_up" if cfg["speed"] else "", ",unique" if cfg["uniq"] else "",
-                                                   ",ignore_partial_fit" if cfg["ign"] and cfg["clf"] == "gnb" else "", ",weights" if cfg["wts"] else "")
+                                                   ",ignore_partial_fit" if cfg["ign"] and cfg["clf"] == "gnb" else "", (",weights" if cfg["wts"] else "") + (",prefit" if cfg.get("prefit") else ""))
 
 
 def replay(spec):
     """targeted replay of one recorded history (the explorer is not needed)"""
     cfg = spec["cfg"]
-    cfg = {"clf": cfg["clf"], "speed": bool(cfg["speed"]), "uniq": bool(cfg["uniq"]), "ign": bool(cfg["ign"]), "wts": bool(cfg["wts"])}
+    cfg = {"clf": cfg["clf"], "speed": bool(cfg["speed"]), "uniq": bool(cfg["uniq"]), "ign": bool(cfg["ign"]), "wts": bool(cfg["wts"]),
+           "prefit": bool(cfg.get("prefit"))}
     hist = [(o[0], tuple(int(i) for i in o[1]), None if o[2] is None else float(o[2]), (None if o[3] is None else bool(o[3])), bool(o[4]),
              None if len(o) < 6 or o[5] is None else float(o[5])) for o in spec["history"]]
     out = []
